@@ -48,8 +48,8 @@ ALT = dict(yacckind="original_noaction", recoverer="none", sformat="fixed", eoc=
            edition="2018", mod_name="pm", lex_vis="public", lex_mod_name="lm", case_insensitive=True, dot_matches_new_line=False)
 # every value a setting can take; each ordered pair of values is exercised as a change between builds
 VALUES = dict(yacckind=["original_generic", "original_noaction"], recoverer=["cpctplus", "none"], sformat=["variable", "fixed"],
-              eoc=[True, False], wae=[False, True], showw=[False, True], vis=["private", "public", "crate", "super"],
-              edition=["2021", "2018", "2015"], mod_name=["unset", "pm", "pm2"], lex_vis=["private", "public"],
+              eoc=[True, False], wae=[False, True], showw=[False, True], vis=["private", "public", "crate", "super", "self", "in"],
+              edition=["2021", "2018", "2015"], mod_name=["unset", "pm", "pm2"], lex_vis=["private", "public", "super", "self", "crate", "in"],
               lex_mod_name=["unset", "lm"], case_insensitive=[False, True], dot_matches_new_line=[True, False],
               lex_wae=[False, True])
 BASE = 1_700_000_000
